@@ -33,6 +33,14 @@ def one_kind(kind: str, reps: int, flush_every: int) -> Dict[str, Any]:
         elif kind == "loop":
             hist.append({"s": "loop", "start": 0, "stop": 3, "step": 1, "form": "ctx" if r % 2 else "body",
                          "body": [{"s": "add", "t": fut("A2", lv(1)), "o": lv(1), "mod": -1}]})
+        elif kind == "loop-named-register":
+            # the application names the counter register; the body needs temporaries of its own (add on a future, a
+            # conditional on a future, a nested loop): none of them may overwrite the live counter
+            body = [{"s": "add", "t": fut("A2", c(0)), "o": fut("A1", c(r % 3)), "mod": 11},
+                    {"s": "if", "cmp": "ge", "a": fut("A1", c(1)), "b": c(0), "form": "ctx", "body": [{"s": "add", "t": fut("A2", c(1)), "o": c(1), "mod": 13}]}]
+            if r % 3 == 2:
+                body.append({"s": "loop", "start": 0, "stop": 2, "step": 1, "form": "ctx", "body": [{"s": "add", "t": fut("A2", c(2)), "o": c(1), "mod": 17}]})
+            hist.append({"s": "loop", "start": 0, "stop": 3, "step": 1, "form": "body", "reg": "R0", "body": body})
         elif kind == "foreach":
             hist.append({"s": "foreach", "a": "A1", "enum": bool(r % 2), "body": [{"s": "add", "t": fut("A2", lv(1)), "o": fut("A1", lv(1)), "mod": 7}]})
         elif kind == "until":
@@ -91,7 +99,7 @@ def long_history(rng: random.Random, nops: int, flush_every: int) -> Dict[str, A
     return {"history": hist, "meas": [rng.randrange(2) for _ in range(g.meas_used + 8)], "kind": "mixed"}
 
 
-KINDS = ["ez", "nz", "eq", "ne", "lt", "ge", "if-two-futures", "loop", "foreach", "until", "add-future", "measure-array", "measure-register", "nested", "empty-bodies"]
+KINDS = ["ez", "nz", "eq", "ne", "lt", "ge", "if-two-futures", "loop", "loop-named-register", "foreach", "until", "add-future", "measure-array", "measure-register", "nested", "empty-bodies"]
 
 
 EPR_KINDS = ["create_keep", "create_keep_with_info", "recv_keep", "create_keep_sequential", "recv_keep_sequential", "create_context", "recv_context",
